@@ -11,10 +11,23 @@ Each change was written by a fresh sub-agent that saw only the text of one prope
 its own scratch worktree (nothing from /verif). I confirmed each one myself in that
 worktree (it compiles, the pinned suite passes with it, its demonstration fails with it
 and passes without it) before keeping it under `seeded/<id>/` (patch.diff, the
-demonstration, notes, meta.json). `tools/seedtest.sh <patch> <props>` applies a patch to
-/repo, runs the quick checks and restores /repo. "Missed at first" records what the
-seed taught me: every miss was turned into a strengthening of the check, never into an
-excuse.
+demonstration, notes, meta.json). `tools/seedtest.sh <patch> <props>` applies a patch to a
+scratch worktree of /repo (or, with IN_REPO=1, to /repo itself), runs the quick checks on
+it and removes it; `tools/seedregress.sh` re-tries every kept seed. "Missed at first"
+records what the seed taught me: every miss was turned into a strengthening of the check,
+never into an excuse.
+
+What the """+str(len(rows))+""" seeds say about the technique: an exhaustive search is only as good as its
+alphabet. Roughly two seeds in five were missed by the check of their property when they
+arrived (most were caught by a neighbouring check), nearly always because one value was
+absent from an alphabet - GOMAXPROCS 1, an ordinary NaN, a label name that sorts before
+`__name__`, a window that is not a whole number of milliseconds, `Query.Close` as the
+cancellation, a distributed engine under the check at all - and three times because of
+the machinery itself (canonical printing hid matcher order, a known finding was scoped
+wider than its defect, a worker death was filed as a harness error). Each miss widened an
+alphabet for every later run, and the side notes of the seed authors led to eight of the
+defects repaired in §0.1 (X34, X36-X39, X41, and the two found while widening: X35, X40).
+The older seeds are re-tried after every round of changes (`seeds missed: 0` each time).
 
 | seed | breaks | needs in order to manifest | caught by | missed at first? |
 |---|---|---|---|---|
